@@ -1,5 +1,5 @@
 //! Sequence explorer (histories): every sequence of up to `depth` instructions over an alphabet
-//! (a property's own instructions plus a shared context alphabet), containing at least one of the
+//! (a property's own instructions plus a shared context alphabet of 21 instructions), containing at least one of the
 //! property's instructions, is rendered to ONE source program, assembled by the real Preprocessor and
 //! executed line by line by ONE real Interpreter object on ONE machine without reloading it; after
 //! every step the complete register file, the flags and the touched memory cells are compared with the
@@ -42,6 +42,13 @@ pub fn context_alphabet() -> Vec<Instr> {
         ins(z(ZeroOp::Sahf)),
         ins(mov(r16("si"), imm(0x0020))),
         ins(mov(r16("di"), imm(0x0022))),
+        // data-label operands, and segment registers changed through the stack and by mov: a label
+        // resolved before the change must be resolved again after it
+        ins(mov(r8("dl"), lab8("bv"))),
+        ins(mov(lab16("wv"), r16("ax"))),
+        ins(pop(sr("ds"))),
+        ins(pop(sr("es"))),
+        ins(mov(sr("ds"), r16("bx"))),
     ]
 }
 
@@ -60,6 +67,11 @@ pub fn default_inits() -> Vec<RefM> {
         for k in 0..16u32 {
             s.m.set(0x20 + k, (0x31 + 13 * k) as u8);
         }
+        // the words on top of the stack are plausible segment values (popped into DS / ES by the context)
+        let top = phys(s.r.ss, s.r.sp);
+        s.m.set16(top, 0x0020);
+        s.m.set16(top + 2, 0x0300);
+        s.m.set16(top + 4, 0x0001);
         v.push(s);
     }
     v
